@@ -34,14 +34,16 @@ type Case struct {
 var names = []string{"alpha", "beta", "gamma", "delta"}
 
 // fixed type per name: two tcp (fixed ports), one stcp, one http
-func pxyMsg(s *fx.Server, ni int) *msg.NewProxy {
+// The public resource (port / domain) depends on the registering slot, not on the name: two
+// sessions asking for the same NAME never collide on anything but the name itself.
+func pxyMsg(s *fx.Server, ni int, slot int) *msg.NewProxy {
 	switch ni {
 	case 0, 1:
-		return &msg.NewProxy{ProxyName: names[ni], ProxyType: "tcp", RemotePort: s.AllowPort(ni)}
+		return &msg.NewProxy{ProxyName: names[ni], ProxyType: "tcp", RemotePort: s.AllowPort(ni*3 + slot)}
 	case 2:
 		return &msg.NewProxy{ProxyName: names[ni], ProxyType: "stcp", Sk: "sk-gamma", AllowUsers: []string{"*"}}
 	default:
-		return &msg.NewProxy{ProxyName: names[ni], ProxyType: "http", CustomDomains: []string{"delta.test"}}
+		return &msg.NewProxy{ProxyName: names[ni], ProxyType: "http", CustomDomains: []string{fmt.Sprintf("delta-s%d.test", slot)}}
 	}
 }
 
@@ -153,16 +155,17 @@ func run(c Case) (err error) {
 		o, live := model[ni]
 		switch ni {
 		case 0, 1:
-			addr := fmt.Sprintf("127.0.0.1:%d", s.AllowPort(ni))
-			conn, e := net.DialTimeout("tcp", addr, time.Second)
 			if !live {
-				if e == nil {
-					// the listener may accept in the kernel backlog only if somebody listens
-					conn.Close()
-					return fmt.Errorf("step %d: port of %s accepts connections although no live proxy owns the name", step, names[ni])
+				for sl := 0; sl < 3; sl++ {
+					if conn, e := net.DialTimeout("tcp", fmt.Sprintf("127.0.0.1:%d", s.AllowPort(ni*3+sl)), time.Second); e == nil {
+						conn.Close()
+						return fmt.Errorf("step %d: a port of %s accepts connections although no live proxy owns the name", step, names[ni])
+					}
 				}
 				return nil
 			}
+			addr := fmt.Sprintf("127.0.0.1:%d", s.AllowPort(ni*3+o.slot))
+			conn, e := net.DialTimeout("tcp", addr, time.Second)
 			if e != nil {
 				return fmt.Errorf("step %d: proxy %s owned by S%dG%d does not accept user connections: %v", step, names[ni], o.slot, o.gen, e)
 			}
@@ -213,7 +216,11 @@ func run(c Case) (err error) {
 				return nil
 			}
 			defer conn.Close()
-			_, _ = conn.Write([]byte("GET / HTTP/1.1\r\nHost: delta.test\r\n\r\n"))
+			host := "delta-s0.test"
+			if live {
+				host = fmt.Sprintf("delta-s%d.test", o.slot)
+			}
+			_, _ = conn.Write([]byte("GET / HTTP/1.1\r\nHost: " + host + "\r\n\r\n"))
 			line, e := fx.ReadLine(conn, 5*time.Second)
 			if !live {
 				if e == nil && !strings.Contains(line, "404") {
@@ -242,8 +249,30 @@ func run(c Case) (err error) {
 		return nil
 	}
 
+	namesOK := func(step int) error {
+		snap := s.Snapshot()
+		if snap == nil {
+			return nil
+		}
+		var want []string
+		for ni := range model {
+			want = append(want, names[ni])
+		}
+		sort.Strings(want)
+		got := append([]string(nil), snap.Proxies...)
+		sort.Strings(got)
+		if fmt.Sprint(got) != fmt.Sprint(want) {
+			return fmt.Errorf("step %d: the server's table of proxy names is %v, the history implies %v", step, got, want)
+		}
+		return nil
+	}
 	var fresh []string
 	for i, op := range c.Ops {
+		if i > 0 {
+			if e := namesOK(i - 1); e != nil {
+				return e
+			}
+		}
 		ss := slots[op.Slot]
 		switch op.Kind {
 		case "login":
@@ -320,7 +349,7 @@ func run(c Case) (err error) {
 				}
 				// the client's earlier registrations must not block the new ones: immediately
 				for _, ni := range prev {
-					resp, e := ns.sc.NewProxy(pxyMsg(s, ni), 5*time.Second)
+					resp, e := ns.sc.NewProxy(pxyMsg(s, ni, op.Slot), 5*time.Second)
 					if e != nil {
 						return fmt.Errorf("step %d: re-registration of %s after re-login: %v", i, names[ni], e)
 					}
@@ -352,7 +381,7 @@ func run(c Case) (err error) {
 				}
 				ns := alive[0]
 				for _, ni := range prev {
-					resp, e := ns.sc.NewProxy(pxyMsg(s, ni), 5*time.Second)
+					resp, e := ns.sc.NewProxy(pxyMsg(s, ni, op.Slot), 5*time.Second)
 					if e != nil || resp.Error != "" {
 						return fmt.Errorf("step %d: surviving re-login cannot re-register %s: %v %v", i, names[ni], e, resp)
 					}
@@ -381,7 +410,7 @@ func run(c Case) (err error) {
 			if ss == nil {
 				continue
 			}
-			resp, e := ss.sc.NewProxy(pxyMsg(s, op.Name), 5*time.Second)
+			resp, e := ss.sc.NewProxy(pxyMsg(s, op.Name, op.Slot), 5*time.Second)
 			if e != nil {
 				return fmt.Errorf("step %d: no response to NewProxy %s: %v", i, names[op.Name], e)
 			}
